@@ -2,7 +2,7 @@ import DendroModel.Model.C03Heap
 open DendroModel DendroModel.C03
 
 /-! Line protocol of `drv_c03`
-  `step <R|U|N> <op> <args…> <tree> [<tree2>]`  →  `ok <R|U|N> <tree>` | `err <class>`
+  `step <R|U|N> <op> <args…> <tree> [<tree2>]`  →  `ok <R|U|N> <tree>` | `err <class> <R|U|N> <tree left behind>` | `err bad-input`
       nodes created by the operation print as `*` (their ids are not observable on the Python side)
       `resolverng <limit> <ub> <script: comma list or -> <tree>` = `resolve_polytomies(rng=<scripted rng>)`
   `heap <prim> <args…> <tree>`                   →  `ok <shape> | <i:parent:children …>` | `err`
@@ -142,17 +142,21 @@ def handle (ws : List String) : String :=
     | some rooted, some (op, t, star) =>
       match step { t := t, rooted := rooted } op with
       | .ok s => "ok " ++ rRooted s.rooted ++ " " ++ renderStar star s.t
-      | .error e => "err " ++ e.render
+      | .error e =>
+        -- a documented error: the class, then the state the operation leaves behind (`errState`)
+        if e == .badInput then "err " ++ e.render else
+        let se := errState { t := t, rooted := rooted } op
+        "err " ++ e.render ++ " " ++ rRooted se.rooted ++ " " ++ renderStar star se.t
     | _, _ => "bad-op"
   | "run" :: r :: rest =>
-    -- `run <R|U|N> <tree> | <op> <args…> | <op> <args…> …`: a whole history through `C03.run` (operations that do not
+    -- `run <R|U|N> <tree> | <op> <args…> | <op> <args…> …`: a whole history through `C03.runE` (operations that do not
     -- create nodes, so that the ids of the start tree stay valid along the history)
     match pRooted r, parseTree rest with
     | some rooted, some (t, rest2) =>
       let segs := (splitBar rest2).filter (fun l => !l.isEmpty)
       match segs.mapM (fun seg => (parseOp (seg ++ ["1", "-1", "-", "N", "-"])).map (fun x => x.1)) with
       | some ops =>
-        let s := run ops { t := t, rooted := rooted }
+        let s := runE ops { t := t, rooted := rooted }
         "ok " ++ rRooted s.rooted ++ " " ++ renderStar (maxId t + 1) s.t
       | none => "bad-op"
     | _, _ => "bad-op"
